@@ -175,3 +175,118 @@ Proof.
   - split; [|reflexivity]. intros n Hn. cbn in Hn.
     repeat (destruct Hn as [<-|Hn]; [cbn; discriminate|]). destruct Hn.
 Qed.
+
+(* ======================================================================================== *)
+(* Stream "calculator": one RuntimeQuotaCalculator (tree nodes + groupReqLimit +           *)
+(* groupGuaranteed caches + version stamps) driven by ANY history of the calls              *)
+(* GroupQuotaManager makes (Calc_Model.v).  [cur_of ops] are the children's current         *)
+(* figures, a function of the op history alone (Calc_Spec.cur_step: no tree, no cache).     *)
+(* ======================================================================================== *)
+From Verif Require Import C02.Calc_Model C02.Calc_Spec C02.Calc_Proofs_Inv C02.Calc_Proofs_Run
+  C02.Calc_Proofs_Pad C02.Calc_Proofs_Case.
+
+(* ---- 7. the invariant: after every history the tree nodes, the total and both caches are
+        exactly the children's current figures (absent cache entry = 0) ---- *)
+Theorem c02_calc_invariant : forall ops,
+  let c := w_calc (run ops) in let cu := cur_of ops in
+  c_tree c = nodes_of (cu_figs cu)
+  /\ c_total c = cu_total cu
+  /\ NoDup (map fst (cu_figs cu))
+  /\ (forall k, c_get k (c_reqLimit c) =
+                match figs_find k (cu_figs cu) with Some f => Z.min (f_req f) (f_max f) | None => 0 end)
+  /\ (forall k, c_get k (c_guaranteed c) =
+                match figs_find k (cu_figs cu) with Some f => f_guar f | None => 0 end).
+Proof. exact calc_state_agrees. Qed.
+Print Assumptions c02_calc_invariant.
+
+(* ---- 8. history independence: the runtime reported for a child (through the version-stamped
+        updateOneGroupRuntimeQuota) is the one redistribution computes from scratch from the
+        current figures; no hypothesis on the history ---- *)
+Theorem c02_calc_history_independent : forall ops k,
+  let w := run ops in let cu := cur_of ops in
+  match tab_find k (w_tab w) with
+  | Some q => live k (cu_figs cu) = true
+              /\ runtime_of k (redistribution (cu_total cu) (nodes_of (cu_figs cu))) = Some (q_runtime q)
+  | None => live k (cu_figs cu) = false
+  end.
+Proof. exact history_independent. Qed.
+Print Assumptions c02_calc_history_independent.
+
+(* siblings that ask for nothing and are owed nothing do not influence anybody's runtime *)
+Theorem c02_inert_siblings : forall total ns p k,
+  (forall n, In n ns -> p n = false -> request n = 0 /\ qmin n = 0 /\ guarantee n = 0) ->
+  (forall n, In n ns -> nm n = k -> p n = true) ->
+  runtime_of k (redistribution total (filter p ns)) = runtime_of k (redistribution total ns).
+Proof. exact redistribution_inert. Qed.
+Print Assumptions c02_inert_siblings.
+
+(* what the harness logs after a history (slots 1..K, -1 for a slot without a live child,
+   counted as 0) is the division among the K slots built from the current figures *)
+Theorem c02_calc_logged_is_division : forall K ops,
+  wf_ops K ops = true ->
+  let cu := cur_of ops in
+  clean K (cu_figs cu) (obs_world K (run ops))
+  = obs_of (pad K (cu_figs cu)) (redistribution (cu_total cu) (pad K (cu_figs cu))).
+Proof. exact logged_is_division. Qed.
+Print Assumptions c02_calc_logged_is_division.
+
+(* ---- 9. corollary: every C02 clause (bounds, conservation, work conservation, fairness) holds
+        for the calculator's reports after ANY well-formed history, against the current figures ---- *)
+Theorem c02_calc_satisfies_spec : forall K ops,
+  wf_ops K ops = true ->
+  let cu := cur_of ops in
+  C02_holds (cu_total cu) (pad K (cu_figs cu)) (clean K (cu_figs cu) (obs_world K (run ops))).
+Proof. exact calc_satisfies_spec. Qed.
+Print Assumptions c02_calc_satisfies_spec.
+
+(* ---- 10. purity: two histories that end in the same current inputs (same total, same figures
+        per name — whatever was created, changed and deleted on the way) report the same runtimes ---- *)
+Theorem c02_calc_pure : forall ops1 ops2 K,
+  cu_total (cur_of ops1) = cu_total (cur_of ops2)
+  /\ (forall k, figs_find k (cu_figs (cur_of ops1)) = figs_find k (cu_figs (cur_of ops2))) ->
+  obs_world K (run ops1) = obs_world K (run ops2).
+Proof. exact calc_pure. Qed.
+Print Assumptions c02_calc_pure.
+
+(* delete a child and create it again under the same name with the same figures: no residue *)
+Theorem c02_calc_delete_recreate : forall ops k f K,
+  figs_find k (cu_figs (cur_of ops)) = Some f ->
+  obs_world K (run (ops ++ [ODelete k; OCreate k (f_lend f) (f_max f); OSetMin k (f_min f);
+                            OSetWeight k (f_weight f); OSetReq k (f_req f); OSetGuar k (f_guar f)]))
+  = obs_world K (run ops).
+Proof. exact calc_delete_recreate. Qed.
+Print Assumptions c02_calc_delete_recreate.
+
+(* ---- 11. the entry points of the "calculator" stream (coq/C02/calc/Extract.v) ---- *)
+Theorem c02_calc_prop_case_model : forall inp,
+  wf_ops (fst (calc_decode inp)) (snd (calc_decode inp)) = true ->
+  calc_prop_case inp (calc_run_case inp) = 0.
+Proof. exact calc_prop_case_model. Qed.
+Print Assumptions c02_calc_prop_case_model.
+
+(* an observable (the implementation's) accepted by the decision procedure satisfies every C02
+   clause after every op, against the figures current at that op *)
+Theorem c02_calc_prop_case_sound : forall inp obs,
+  calc_prop_case inp obs = 0 ->
+  steps_hold (fst (calc_decode inp)) cur0 (snd (calc_decode inp)) obs.
+Proof. exact calc_prop_case_sound. Qed.
+Print Assumptions c02_calc_prop_case_sound.
+
+(* ---- non-vacuity: a well-formed history with contention (two children asking 50 each of 40),
+        a guarantee above the minimum, delete + re-create, an update that binds the max ---- *)
+Definition ex_ops : list op :=
+  [ OSetTotal 40;
+    OCreate 1 true 100; OSetMin 1 10; OSetWeight 1 1; OSetReq 1 50; OSetGuar 1 30;
+    OCreate 2 true 100; OSetMin 2 10; OSetWeight 2 1; OSetReq 2 50; OSetGuar 2 10;
+    ODelete 1;
+    OCreate 1 true 100; OSetMin 1 10; OSetWeight 1 1; OSetReq 1 50; OSetGuar 1 30;
+    OSetTotal 70; OSetMax 2 20; ONoop ].
+
+Example c02_calc_nonvacuous :
+  wf_ops 3 ex_ops = true
+  /\ obs_world 3 (run (firstn 11 ex_ops)) = [30; 10; -1]
+  /\ obs_world 3 (run (firstn 12 ex_ops)) = [-1; 40; -1]
+  /\ obs_world 3 (run (firstn 17 ex_ops)) = [30; 10; -1]
+  /\ obs_world 3 (run (firstn 18 ex_ops)) = [45; 25; -1]
+  /\ obs_world 3 (run ex_ops) = [50; 20; -1].
+Proof. vm_compute. repeat split; reflexivity. Qed.
